@@ -44,6 +44,7 @@ type Spec struct {
 	CompactL0OnClose    bool
 	ExternalMagic       uint16
 	ManifestRewriteAt   int // >0: rewrite the MANIFEST after this many deletions (default 10000)
+	AltKey              bool `json:",omitempty"` // the master key is AltEncKey (after a master-key rotation)
 }
 
 // EncKey is the master key material (first EncKeyLen bytes are used).
@@ -121,6 +122,17 @@ func Gen(t *rapid.T, g GenCfg) Spec {
 	return s
 }
 
+// MasterKey returns the master key the spec opens the DB with (nil: no encryption).
+func (s Spec) MasterKey() []byte {
+	if s.EncKeyLen == 0 {
+		return nil
+	}
+	if s.AltKey {
+		return AltEncKey[:s.EncKeyLen]
+	}
+	return EncKey[:s.EncKeyLen]
+}
+
 // Options converts the spec.
 func (s Spec) Options(dir string) badger.Options {
 	o := badger.DefaultOptions(dir)
@@ -144,7 +156,7 @@ func (s Spec) Options(dir string) badger.Options {
 	o.Compression = options.CompressionType(s.Compression)
 	o.ZSTDCompressionLevel = 1
 	if s.EncKeyLen > 0 {
-		o.EncryptionKey = EncKey[:s.EncKeyLen]
+		o.EncryptionKey = s.MasterKey()
 		if s.EncRotateEveryFile {
 			o.EncryptionKeyRotationDuration = time.Nanosecond
 		}
